@@ -76,6 +76,11 @@ def apply_op(w, op, r):
         # that cannot be encoded; either is noticed after the stream object exists): the id was never used, every
         # watermark stays where it was
         bad = BAD_REQ if op[3] == 'invalid' else list(REQ) + [('x-bad-text', 'v\udcff')]
+        if op[3] == 'bad-parent':
+            # a valid list, promised on a parent that is closed and forgotten, or was never opened
+            bad = list(REQ)
+            w.s.c.open_inbound_streams
+            w.s.c.open_outbound_streams
         if kind == 'open-local-bad':
             o = w.s.call('send_headers', op[1], bad, end_stream=op[2])
         else:
@@ -182,7 +187,11 @@ def run_case(data):
             par = ch.pick(parents)
             if w.next_local_id() > TOP or m.push_verdict(par, w.next_local_id())[0] != M.PERMIT:
                 continue
-            op = (kind, par, w.next_local_id(), ch.pick(['invalid', 'unencodable']))
+            how = ch.pick(['invalid', 'unencodable', 'bad-parent'])
+            if how == 'bad-parent':
+                gone = [s for s in m.streams if s % 2 == 1 and m.get(s).state == M.CLOSED]
+                par = ch.pick(sorted(gone) + [w.next_peer_id()])
+            op = (kind, par, w.next_local_id(), how)
         elif kind == 'push':
             parents = [s for s in usable if s % 2 == 1 and m.get(s).state in (M.OPEN, M.HC_REMOTE)]
             if not parents:
